@@ -24,6 +24,22 @@ func argDerived(term string) bool {
 	return strings.Contains(term, ".Arguments") || strings.Contains(term, "P:args") || strings.Contains(term, "P:") && strings.Contains(term, "[")
 }
 
+// argDerivedValue: v denotes argument bytes — by its term, or as a φ all of whose alternatives do (`b := args[0]; if … { b = args[1] }`).
+func argDerivedValue(e *Env, v ssa.Value, depth int) bool {
+	if argDerived(e.Term(v)) {
+		return true
+	}
+	if ph, ok := v.(*ssa.Phi); ok && depth < 4 && len(ph.Edges) > 0 {
+		for _, ed := range ph.Edges {
+			if ed != ssa.Value(ph) && !argDerivedValue(e, ed, depth+1) {
+				return false
+			}
+		}
+		return true
+	}
+	return false
+}
+
 // taintSources walks back from v through conversions and φ's to Uint64() sources (and parameters of helpers).
 type taintSrc struct {
 	call *ssa.Call
@@ -275,7 +291,7 @@ func checkTaintSink(c *Ctx, rule string, e *Env, sk taintSink, depth int) {
 		recvTerm := se.Term(call.Call.Args[0])
 		derived := argDerived(recvTerm)
 		for _, d := range se.bigReachingDefs(call.Call.Args[0], call) {
-			if bigMethod(d) == "SetBytes" && len(d.Call.Args) == 2 && argDerived(se.Term(d.Call.Args[1])) {
+			if bigMethod(d) == "SetBytes" && len(d.Call.Args) == 2 && argDerivedValue(se, d.Call.Args[1], 0) {
 				derived = true
 			}
 		}
